@@ -612,6 +612,10 @@ fn end_to_end(ctx: &Ctx, t: &mut Tally) -> Value {
         if let Some(u) = v["unavailable"].as_str() {
             return json!({"skipped": format!("the sandbox does not allow it: {u}")});
         }
+        if e2e::too_slow(&v) {
+            report.push(json!({"scenario": sc.name, "verdict": e2e::slow_note(&v)}));
+            continue;
+        }
         let doc = json!({"check": "C16", "phase": "end to end through the release binary", "scenario": sc.name, "observed": v});
         let n = v["publications"].as_array().map(|a| a.len()).unwrap_or(0);
         if n == 0 {
